@@ -71,7 +71,8 @@ def gen_histories(rep, rd, n, only_hash=False):
     # histories around the one operation that edits its target (IoContract.simplify()) on contracts stored unsimplified
     return ([{"focus": False, "hist": h} for h in hs] + fs + simulate(rep, rd, "Session_hash.cfg", n // 2, 32, "hash")
             + simulate(rep, rd, "Session_terms.cfg", n // 2, 32, "terms")
-            + simulate(rep, rd, "Session_twins.cfg", n // 2, 36, "twins"))      # values that print alike     # the term-level API on lists whose coefficients can cancel
+            + simulate(rep, rd, "Session_twins.cfg", n // 2, 36, "twins")
+            + simulate(rep, rd, "Session_solver.cfg", n // 2, 30, "solver"))      # values that print alike     # the term-level API on lists whose coefficients can cancel
 
 
 def run_case(case):
@@ -81,7 +82,7 @@ def run_case(case):
     if _PRISTINE is None:
         _PRISTINE = sessdrv.Pristine()   # forked before this worker executed any pacti operation
     rng = family.rng_for(case["seed"], PROP, case["id"])
-    small = case.get("focus") or case.get("mode") == "hash"
+    small = case.get("focus") or case.get("mode") in ("hash", "solver")
     evs = sessdrv.run_history(case["hist"], rng, _PRISTINE, nseed=3 if small else 6, chain=bool(case.get("focus")), mode=case.get("mode", ""))
     for e in evs:
         e["groups"] = ["pure", "determ", "exc", "coh"]
